@@ -1,5 +1,5 @@
 (* Props/C03.v — Aggregates / GROUP BY: one exact result row per group, in key order. *)
-From RBQL Require Import Base Value Expr Writers Join Agg Agg_Proofs Sort_Proofs Engine Spec AggEngine_Proofs.
+From RBQL Require Import Base Value Expr Writers Join Agg Agg_Proofs Sort_Proofs Engine Spec AggEngine_Proofs JsKey NumLit NumLit_Proofs.
 From Coq Require Import QArith Permutation Sorted.
 
 (* an aggregate query whose evaluations succeed emits agg_rows - one row per distinct GROUP BY key among the
@@ -176,3 +176,45 @@ Example C03_numhandler_nonvacuous :
   /\ fst (numh_parse (started_str true) (AStr [50; 46; 53]%N)) = Ok (AFlt (5 # 2)).
 Proof. vm_compute. split; reflexivity. Qed.
 Print Assumptions C03_numhandler_nonvacuous.
+
+(* ---- which strings are numbers (NumLit.v): Python int(s) / float(s), JavaScript Number(s) with rbql-js's rejection of NaN and blanks ----
+   on the common core [+-]? digits (. digits)? the old model (Value.parse_float / Value.parse_int, used by NumHandler above) succeeds
+   and is the restriction of the three literal functions (int: up to CPython's default limit of 4300 digits) *)
+Theorem C03_numlit_core_agree : forall s, numeric_core s = true ->
+  exists q, Value.parse_float s = Some q /\ py_float_lit s = NLOk q /\ js_number_lit s = NLOk q /\
+    (has_dot s = false ->
+       exists z, Value.parse_int s = Some z /\ q = inject_Z z /\ ((length s <= MAX_STR_DIGITS)%nat -> py_int_lit s = NLOk z)).
+Proof. exact numlit_core_agree. Qed.
+Print Assumptions C03_numlit_core_agree.
+
+(* the two ports agree on which strings are numbers, and on the value, on every ASCII string without an underscore, without a
+   0x / 0o / 0b prefix and without a spelling of an infinity or of NaN ... *)
+Theorem C03_numlit_py_js_agree : forall s, common_notation s = true -> py_float_lit s = js_number_lit s.
+Proof. exact py_js_agree. Qed.
+Print Assumptions C03_numlit_py_js_agree.
+
+(* ... and there only: 1_0 is a number (ten) for Python alone, 0x10 (sixteen) for JavaScript alone *)
+Theorem C03_numlit_py_only_refuted :
+  py_int_lit [49; 95; 48]%N = NLOk 10%Z /\ py_float_lit [49; 95; 48]%N = NLOk (10 # 1) /\ js_number_lit [49; 95; 48]%N = NLError
+  /\ common_notation [49; 95; 48]%N = false.
+Proof. exact py_only_refuted. Qed.
+Print Assumptions C03_numlit_py_only_refuted.
+Theorem C03_numlit_js_only_refuted :
+  js_number_lit [48; 120; 49; 48]%N = NLOk (16 # 1) /\ py_float_lit [48; 120; 49; 48]%N = NLError /\ py_int_lit [48; 120; 49; 48]%N = NLError
+  /\ common_notation [48; 120; 49; 48]%N = false.
+Proof. exact js_only_refuted. Qed.
+Print Assumptions C03_numlit_js_only_refuted.
+
+(* an integer written by one query (int_text z = str(z) = String(z)) is read back as z by the next, in both ports *)
+Theorem C03_numlit_int_roundtrip : forall z,
+  js_number_lit (int_text z) = NLOk (inject_Z z) /\ py_float_lit (int_text z) = NLOk (inject_Z z)
+  /\ ((Z.abs z < 10 ^ Z.of_nat MAX_STR_DIGITS)%Z -> py_int_lit (int_text z) = NLOk z).
+Proof. exact int_roundtrip. Qed.
+Print Assumptions C03_numlit_int_roundtrip.
+
+(* surrounding white space (space, TAB, LF, VT, FF, CR) never matters *)
+Theorem C03_numlit_ws_invariant : forall w1 w2 s, forallb is_ws w1 = true -> forallb is_ws w2 = true ->
+  py_int_lit (w1 ++ s ++ w2) = py_int_lit s /\ py_float_lit (w1 ++ s ++ w2) = py_float_lit s
+  /\ js_number_lit (w1 ++ s ++ w2) = js_number_lit s.
+Proof. exact nl_ws_invariant. Qed.
+Print Assumptions C03_numlit_ws_invariant.
